@@ -31,7 +31,7 @@ var keywords = map[string]bool{"function": true, "let": true, "if": true, "else"
 func isIdStart(c byte) bool {
 	return c == '_' || c == '$' || (c >= 'a' && c <= 'z') || (c >= 'A' && c <= 'Z') || c >= 0x80
 }
-func isDigit(c byte) bool { return c >= '0' && c <= '9' }
+func isDigit(c byte) bool  { return c >= '0' && c <= '9' }
 func isIdPart(c byte) bool { return isIdStart(c) || isDigit(c) }
 
 var puncts2 = []string{"==", "!=", "<=", ">=", "&&", "||", "++", "--", "+=", "-="}
